@@ -199,14 +199,28 @@ struct Scripted {
     mode: usize,
 }
 
+/// readiness test of the scripted future: (ordering of the flag load, value that means "ready")
+fn poll_test(mode: usize) -> (std::sync::atomic::Ordering, i128) {
+    if mode == 2 {
+        (std::sync::atomic::Ordering::Relaxed, 2)
+    } else {
+        (std::sync::atomic::Ordering::Acquire, 1)
+    }
+}
+
+fn slot_mode(mode: usize) -> bool {
+    mode == 0 || mode == 2
+}
+
 impl Future for Scripted {
     type Output = i128;
     fn poll(self: Pin<&mut Self>, cx: &mut Context<'_>) -> Poll<i128> {
         let w = &self.w;
-        if w.atomic_load_acq(self.f) == 1 {
+        let (ord, target) = poll_test(self.mode);
+        if w.atomic_load_ord(self.f, ord) == target {
             return Poll::Ready(7);
         }
-        if self.mode == 0 {
+        if slot_mode(self.mode) {
             let new = cx.waker().clone();
             let mut g = w.futures[self.f].slot.lock().unwrap();
             *g = Some(new); // an older registered waker is dropped here, inside the lock
@@ -214,7 +228,7 @@ impl Future for Scripted {
         } else {
             w.futures[self.f].aw.register_by_ref(cx.waker());
         }
-        if w.atomic_load_acq(self.f) == 1 {
+        if w.atomic_load_ord(self.f, ord) == target {
             Poll::Ready(7)
         } else {
             Poll::Pending
@@ -222,19 +236,34 @@ impl Future for Scripted {
     }
 }
 
+/// `poll_once`: polls the inner future a single time; 0 if it is still pending
+struct PollOnce(Scripted);
+
+impl Future for PollOnce {
+    type Output = i128;
+    fn poll(mut self: Pin<&mut Self>, cx: &mut Context<'_>) -> Poll<i128> {
+        match Pin::new(&mut self.0).poll(cx) {
+            Poll::Ready(v) => Poll::Ready(v),
+            Poll::Pending => Poll::Ready(0),
+        }
+    }
+}
+
 pub fn future_op(w: &Rc<World>, op: &Op) -> Ret {
     match op {
         Op::BlockOn(f, mode) => {
-            let v = loom::future::block_on(Scripted { w: w.clone(), f: *f, mode: *mode });
+            let fut = Scripted { w: w.clone(), f: *f, mode: *mode };
+            let v = if *mode == 4 { loom::future::block_on(PollOnce(fut)) } else { loom::future::block_on(fut) };
             // what dropping the future would release
-            if *mode == 0 {
+            if slot_mode(*mode) {
                 let mut g = w.futures[*f].slot.lock().unwrap();
                 let old = g.take();
                 drop(g);
                 drop(old);
-            } else {
+            } else if *mode == 1 {
                 drop(w.futures[*f].aw.take_waker());
             }
+            // mode 3: the registration stays in the AtomicWaker
             Ret::Val(v)
         }
         Op::Wake(f) => {
@@ -254,6 +283,40 @@ pub fn future_op(w: &Rc<World>, op: &Op) -> Ret {
                 wk.wake_by_ref();
             }
             drop(g);
+            Ret::Unit
+        }
+        Op::WakeQ(f) => {
+            let g = w.futures[*f].slot.lock().unwrap();
+            if let Some(wk) = g.as_ref() {
+                wk.wake_by_ref();
+            }
+            drop(g);
+            Ret::Unit
+        }
+        Op::WClone(f) => {
+            // a clone of the registered waker, kept by this thread
+            let (tid, _) = loom::verif::current();
+            let g = w.futures[*f].slot.lock().unwrap();
+            let c = g.as_ref().map(|wk| wk.clone());
+            drop(g);
+            match c {
+                Some(wk) => {
+                    w.held.borrow_mut().insert((tid, *f), wk);
+                    Ret::Val(1)
+                }
+                None => Ret::Val(0),
+            }
+        }
+        Op::WakeH(f) => {
+            let (tid, _) = loom::verif::current();
+            let wk = w.held.borrow_mut().remove(&(tid, *f));
+            if let Some(wk) = wk {
+                wk.wake();
+            }
+            Ret::Unit
+        }
+        Op::AwTake(f) => {
+            drop(w.futures[*f].aw.take_waker());
             Ret::Unit
         }
         Op::DropWaker(f) => {
